@@ -96,41 +96,51 @@ func encodeBody(g Graph, st Val, body []byte) ([]byte, error) {
 	f = deepResolve(g, f, 6)
 	p, _ := st.entry("DecodeParms")
 	p = deepResolve(g, p, 6)
+	var names, parms []Val
 	if f.T == "a" {
-		if len(f.E) != 1 {
-			return nil, fmt.Errorf("filter array of length %d", len(f.E))
-		}
-		f = f.E[0]
+		names = f.E
 		if p.T == "a" {
-			if len(p.E) != 1 {
-				return nil, fmt.Errorf("parms array of length %d", len(p.E))
-			}
-			p = p.E[0]
+			parms = p.E
+		} else if p.T == "d" && len(names) == 1 {
+			parms = []Val{p}
 		}
-	}
-	if f.T == "z" {
-		return body, nil
-	}
-	if f.T != "s" || f.A != "n:FlateDecode" {
-		return nil, fmt.Errorf("unsupported filter %s", f)
+	} else {
+		names, parms = []Val{f}, []Val{p}
 	}
 	data := body
-	if p.T == "d" {
-		pred, _ := p.entry("Predictor")
-		cols, _ := p.entry("Columns")
-		pp := codecs.PredParams{Predictor: atomInt(pred, 1), Colors: 1, BPC: 8, Columns: atomInt(cols, 1)}
-		if pp.Predictor >= 10 {
-			if len(body)%pp.RowBytes() != 0 {
-				return nil, fmt.Errorf("body length %d is not a multiple of the row length", len(body))
+	for i := len(names) - 1; i >= 0; i-- { // the first filter is the last to be applied when encoding
+		name := names[i]
+		pi := nul()
+		if i < len(parms) {
+			pi = parms[i]
+		}
+		switch {
+		case name.T == "z":
+			// no filter
+		case name.T == "s" && name.A == "n:ASCIIHexDecode":
+			data = codecs.ASCIIHexEncode(data)
+		case name.T == "s" && name.A == "n:FlateDecode":
+			if pi.T == "d" {
+				pred, _ := pi.entry("Predictor")
+				cols, _ := pi.entry("Columns")
+				pp := codecs.PredParams{Predictor: atomInt(pred, 1), Colors: 1, BPC: 8, Columns: atomInt(cols, 1)}
+				if pp.Predictor >= 10 {
+					if len(data)%pp.RowBytes() != 0 {
+						return nil, fmt.Errorf("body length %d is not a multiple of the row length", len(data))
+					}
+					data = codecs.PNGEncode(pp, data, func(r int) int { return []int{2, 1, 0, 4, 3}[r%5] })
+				}
 			}
-			data = codecs.PNGEncode(pp, body, func(r int) int { return []int{2, 1, 0, 4, 3}[r%5] })
+			var z bytes.Buffer
+			zw := zlib.NewWriter(&z)
+			zw.Write(data)
+			zw.Close()
+			data = z.Bytes()
+		default:
+			return nil, fmt.Errorf("unsupported filter %s", name)
 		}
 	}
-	var z bytes.Buffer
-	zw := zlib.NewWriter(&z)
-	zw.Write(data)
-	zw.Close()
-	return z.Bytes(), nil
+	return data, nil
 }
 
 // streamDict builds the real dictionary of a stream: the ordinary entries,
